@@ -15,7 +15,7 @@ META = {
         "compile-fail witness in the thorough tier). R3: the all-years list is sorted ascending by period start year. "
         "R4: the matcher receives the conversion of all transactions (no filter upstream); the year filter is applied "
         "to its results; holdings come from the unfiltered pools. R5: the single-year and all-years builders fill every "
-        "TaxYearSummary field from the same producers. Does not decide equality of the sliced and the all-years report."),
+        "TaxYearSummary field from the same producers. Does not decide equality of the sliced and the all-years report. R6: constant year-like ranges in the front-end crates contain 1900..=2100."),
     "trusted_base": ["chrono NaiveDate ordering is calendar order; from_ymd_opt(y, m, d) denotes that date",
                      "rustc MIR + callee resolution"],
 }
